@@ -493,6 +493,9 @@ class SymInt(_Num):
 # format tokens
 
 PLAIN_SPECS = ("", "r", "s")
+# When False, `'e' in str(x)` does not fork: the branch taken for values in the exponent-notation range is
+# not explored (it is C07's subject, where the flag is True); both branches denote the same value.
+FMT_FORK = [False]
 
 
 def spec_kind(spec):
@@ -527,7 +530,7 @@ class FmtTok(str):
         if item in ("e", "E") and core.active():
             if spec_kind(self.spec) == "repr":
                 # CPython writes the exponent marker in lower case
-                if item == "E":
+                if item == "E" or not FMT_FORK[0]:
                     return False
                 return core.cur().decide(exp_range(self.term))
             if spec_kind(self.spec) == "fixed":
